@@ -236,7 +236,8 @@ def generate(prop, rng, tier):
     for _ in range(n_rep):
         det = rng.choice(["tp", "fp", "fkm"])
         reps.append({"det": det, "rec": rng.choice(["full", "full", "value"]),
-                     "cuts": gen_cuts(rng, sig)})
+                     "cuts": gen_cuts(rng, sig),
+                     "container": rng.choice(["ndarray", "ndarray", "ndarray", "list", "series", "strided", "readonly"])})
     order = []
     for r, rp in enumerate(reps):
         order += [r] * (len(rp["cuts"]) + 1)
@@ -315,13 +316,26 @@ def _execute(prop, trace):
         st["k"] += 1
         last = st["k"] == len(st["bounds"]) - 1
         chunk = np.array(sig[a:b], dtype=np.float64)
+        cont = rp.get("container", "ndarray")
+        if cont == "list":
+            chunk = [float(x) for x in sig[a:b]]
+        elif cont == "series":
+            chunk = pd.Series(chunk, index=pd.RangeIndex(a + 7, b + 7))
+        elif cont == "strided":
+            wide = np.empty(2 * (b - a), dtype=np.float64)
+            wide[0::2] = chunk
+            wide[1::2] = -1e9
+            chunk = wide[0::2]                 # a non-contiguous view
+        elif cont == "readonly":
+            chunk.setflags(write=False)        # e.g. a memory-mapped recording
+        out.count("container:" + cont)
         st["delivered"].append(sig[a:b])
         det, rec = rp["det"], rp["rec"]
         flush = final_flush and last and det == "fkm"
         out.steps += 1
         try:
             _feed(st["d"], chunk, flush)
-            if scribble:
+            if scribble and cont == "ndarray":
                 chunk[:] = 1e30       # the caller re-uses its buffer (probe, see below)
             o = observe(st["d"], det, rec)
         except RealCodeError as e:
